@@ -423,6 +423,15 @@ func runC10(a *runArgs) error {
 		obs := builderDiag(f)
 		c := c10CaseA{Fn: f, Obs: obs, Ref: ref, Src: src, Stratum: "builder"}
 		m.DirectRuns++
+		if len(ref.Dups) > 0 && obs.Fault == "" {
+			// a redeclared label is an error of its own (label bookkeeping: C16); how the missing-return
+			// analysis recovers after it is not part of the property: only the duplicates are compared
+			m.Dist["A:dup-label"]++
+			if fmt.Sprint(obs.Dups) != fmt.Sprint(ref.Dups) {
+				m.Direct = append(m.Direct, directViolation{Case: idx, What: fmt.Sprintf("duplicate labels differ from go/types: builder %v, go/types %v", obs.Dups, ref.Dups), Replay: c})
+			}
+			continue
+		}
 		if obs.Fault != "" {
 			m.Direct = append(m.Direct, directViolation{Case: idx, What: "builder fault on a function body: " + obs.Fault, Replay: c})
 		} else if !obs.eq(ref) {
